@@ -125,3 +125,252 @@ def multiset_close(got, exp, rel=1e-9, abs_=1e-9):
         else:
             return False
     return True
+
+
+# ---------------------------------------------------------------------------------------------------------
+# Probes for effects that depend on HISTORY or on the FORM of the input rather than on its value
+# (shared by C01, C03, C12).  The Lean `assemble` is a pure function of the definition and an evaluator of
+# the model is a pure function of (definition, parameter values, x, t): whatever an earlier call, another
+# live instance or the container type of an argument changes in the real code is therefore a departure from
+# the model, and the direct oracles below (harness interpreter, 50 digits) decide whether the property fails.
+# ---------------------------------------------------------------------------------------------------------
+
+X_FORMS_FLOAT = ["list", "tuple", "ndarray"]
+X_FORMS_INT = ["list_int", "tuple_int", "ndarray_int64", "ndarray_int32"]
+T_FORMS_FLOAT = ["float", "np.float64"]
+T_FORMS_INT = ["int", "np.int64"]
+P_FORMS = ["list", "tuple", "ndarray", "dict_name", "pairs"]
+
+
+def is_integral(env, names):
+    return all(Fraction(env[n]).denominator == 1 for n in names)
+
+
+def gen_forms(rng, points, states):
+    """one (x form, t form, parameter form) per point; integer forms only where the point is integer valued"""
+    out = []
+    for k, p in enumerate(points):
+        xi = is_integral(p, states)
+        ti = Fraction(p["t"]).denominator == 1
+        xf = rng.choice(X_FORMS_INT if (xi and rng.random() < 0.7) else X_FORMS_FLOAT)
+        tf = rng.choice(T_FORMS_INT if (ti and rng.random() < 0.5) else T_FORMS_FLOAT)
+        out.append({"x": xf, "t": tf, "p": rng.choice(P_FORMS)})
+    return out
+
+
+def as_x(env, names, form):
+    import numpy as np
+    if form.endswith(("_int", "_int64", "_int32")):
+        vals = [int(Fraction(env[n])) for n in names]
+    else:
+        vals = [float(env[n]) for n in names]
+    if form.startswith("list"):
+        return list(vals)
+    if form.startswith("tuple"):
+        return tuple(vals)
+    if form == "ndarray_int32":
+        return np.array(vals, dtype=np.int32)
+    if form == "ndarray_int64":
+        return np.array(vals, dtype=np.int64)
+    return np.array(vals, dtype=float)
+
+
+def as_t(env, form):
+    import numpy as np
+    if form == "int":
+        return int(Fraction(env["t"]))
+    if form == "np.int64":
+        return np.int64(int(Fraction(env["t"])))
+    if form == "np.float64":
+        return np.float64(float(env["t"]))
+    return float(env["t"])
+
+
+def as_params(env, names, form):
+    import numpy as np
+    vals = [float(env[n]) for n in names]
+    if form == "tuple":
+        return tuple(vals)
+    if form == "ndarray":
+        return np.array(vals, dtype=float)
+    if form == "dict_name":
+        return {n: v for n, v in zip(names, vals)}
+    if form == "pairs":
+        return [(n, v) for n, v in zip(names, vals)]
+    return list(vals)
+
+
+def freeze(obj):
+    """a value that identifies container type, dtype and contents of an argument, to see that a call left it alone"""
+    import numpy as np
+    if isinstance(obj, np.ndarray):
+        return ("ndarray", str(obj.dtype), obj.shape, obj.tobytes())
+    if isinstance(obj, dict):
+        return ("dict", tuple((k, repr(v)) for k, v in obj.items()))
+    if isinstance(obj, (list, tuple)):
+        return (type(obj).__name__, tuple(repr(v) for v in obj))
+    return (type(obj).__name__, repr(obj))
+
+
+class Kept(object):
+    """Evaluator results kept exactly as returned (no copy) next to a private copy taken right after the call.
+    Everything is judged twice: the copies immediately, the kept objects after ALL other calls were made
+    (an evaluator that hands out an internal buffer passes the first and fails the second).  Only VALUES are judged by
+    the callers: an argument that was written to, or a kept array rewritten with values that are still right, is a side
+    effect outside the properties concerned and is tagged."""
+
+    def __init__(self):
+        self.rows = []          # dict(label, name, raw, snap)
+        self.input_changed = []
+
+    def call(self, model, name, x, t, label):
+        import numpy as np
+        fx, ft = freeze(x), freeze(t)
+        raw = getattr(model, name)(x, t)
+        snap = np.array(raw, dtype=float, copy=True)
+        if freeze(x) != fx or freeze(t) != ft:
+            self.input_changed.append((label, name))
+        self.rows.append({"label": label, "name": name, "raw": raw, "snap": snap})
+        return snap
+
+    def changed(self):
+        """(label, name, kept value, value at the time of the call) of every kept result that no longer equals its copy"""
+        import numpy as np
+        out = []
+        for r in self.rows:
+            now = np.asarray(r["raw"], dtype=float)
+            if now.shape != r["snap"].shape or not np.array_equal(now, r["snap"], equal_nan=True):
+                out.append((r["label"], r["name"], now, r["snap"]))
+        return out
+
+    def scribble(self):
+        """the caller owns what it was given: overwrite every kept array (a later call must not be affected)"""
+        import numpy as np
+        n = 0
+        for r in self.rows:
+            a = r["raw"]
+            if isinstance(a, np.ndarray) and a.flags.writeable and a.dtype.kind == "f":
+                a[...] = np.nan
+                n += 1
+        return n
+
+
+def _tr_effect(tj, states, denv, col):
+    m = E.ev(tj["mag"], denv) if tj.get("mag") is not None else mpf(1)
+    tt = tj["type"]
+    if tt in ("T", "D"):
+        col[states.index(tj["origin"])] -= m
+    if tt == "T":
+        col[states.index(tj["dest"])] += m
+    if tt == "B":
+        col[states.index(tj["dest"] if tj.get("dest") is not None else tj["origin"])] += m
+
+
+def spec_oracle(spec, states, env, upto=None):
+    """Lean-independent reference read off the API-level spec itself (constructor keywords, then the first
+    `upto` incremental operations): f = sum rate*net + explicit terms, the (rate, column) pairs, the explicit
+    part.  Used for the intermediate models of a staged construction; for a complete spec it must agree with
+    `net_oracle` of the abstract process set (checked by the callers: a difference is a harness error)."""
+    denv = gen.derived_env(spec.get("derived", []), env)
+    n = len(states)
+    pairs, pure = [], [mpf(0)] * n
+
+    def event(ej):
+        col = [mpf(0)] * n
+        if ej.get("transition") is not None:
+            tj = ej["transition"]
+            rate = E.ev(tj["eq"], denv)
+            _tr_effect(tj, states, denv, col)
+        else:
+            eqs = [t["eq"] for t in ej["transitions"] if t.get("eq") is not None]
+            rate = E.ev(ej["rate"] if ej.get("rate") is not None else eqs[0], denv)
+            for tj in ej["transitions"]:
+                _tr_effect(tj, states, denv, col)
+        pairs.append((rate, col))
+
+    def legacy(tj):
+        col = [mpf(0)] * n
+        _tr_effect(tj, states, denv, col)
+        pairs.append((E.ev(tj["eq"], denv), col))
+
+    def ode(tj):
+        pure[states.index(tj["origin"])] += E.ev(tj["eq"], denv)
+
+    c = spec.get("ctor", {})
+    for ej in c.get("event", []): event(ej)
+    for tj in c.get("transition", []): legacy(tj)
+    for tj in c.get("birth_death", []): legacy(tj)
+    for tj in c.get("ode", []): ode(tj)
+    ops = spec.get("then", [])
+    for op in (ops if upto is None else ops[:upto]):
+        k = op["op"]
+        if k == "add_event": event(op)
+        elif k in ("add_transition", "add_birth_death"): legacy(op["t"])
+        elif k == "add_ode": ode(op["t"])
+        else:
+            raise ValueError("spec_oracle: operation %s is not a process" % k)
+    f = list(pure)
+    for r, col in pairs:
+        for i in range(n):
+            f[i] += r * col[i]
+    return f, [col for _, col in pairs], [r for r, _ in pairs], pure
+
+
+FD_H1 = mpf("1e-15")
+
+
+def shift_env(env, name, h):
+    e = dict(env)
+    v = e[name]
+    e[name] = (mpf(v.numerator) / mpf(v.denominator) if isinstance(v, Fraction) else mpf(v)) + h
+    return e
+
+
+def fd_jacobian(fun, env, names):
+    """[i][j] = d fun_i / d names_j by central differences in 50-digit arithmetic (error ~1e-30 relative)"""
+    cols = []
+    for nme in names:
+        a = fun(shift_env(env, nme, FD_H1)); b = fun(shift_env(env, nme, -FD_H1))
+        cols.append([(x - y) / (2 * FD_H1) for x, y in zip(a, b)])
+    return [[cols[j][i] for j in range(len(names))] for i in range(len(cols[0]) if cols else 0)]
+
+
+BIG_FORMS = ["ndarray_int64", "ndarray_int64", "ndarray_int32", "tuple_npint64", "list_int"]
+
+
+def dtype_probe(model, names, states, params, env, xform, who=""):
+    """Populations of 1e4..1e6 handed to the evaluators `names` with an integer dtype and, the same point, as Python
+    floats.  Absolute accuracy is not judged here (float64 cancellation at this scale is not a defect); the two answers
+    for ONE point must agree, and only a gross difference (1e-3 relative, entry by entry, and 1e-9 of the largest
+    entry) is reported: fixed-width integer wrap-around changes values by orders of magnitude.
+    Returns (violations, tags); sets model.parameters to those of `env`."""
+    import numpy as np
+    viol, tags = [], []
+    vals = [int(env[s_]) for s_ in states]
+    xi = {"ndarray_int64": lambda: np.array(vals, dtype=np.int64), "ndarray_int32": lambda: np.array(vals, dtype=np.int32),
+          "tuple_npint64": lambda: tuple(np.int64(v) for v in vals), "list_int": lambda: list(vals)}[xform]()
+    xf = [float(v) for v in vals]
+    t = float(env["t"])
+    try:
+        model.parameters = fl(env, params)
+    except Exception:
+        return viol, ["big:parameters-not-settable"]
+    tags.append("big:" + xform)
+    for name in names:
+        try:
+            ri = np.array(getattr(model, name)(xi, t), float); rf = np.array(getattr(model, name)(xf, t), float)
+        except Exception as exc:
+            viol.append({"what": who + "%s raised %s at populations of 1e4..1e6 (x as %s): %s" % (name, type(exc).__name__, xform, str(exc)[:150]),
+                         "signature": "evaluator-raise:%s:big:%s" % (type(exc).__name__, xform), "detail": ""})
+            return viol, tags
+        if ri.shape != rf.shape or not (np.all(np.isfinite(ri)) and np.all(np.isfinite(rf))):
+            tags.append("big:non-finite")
+            continue
+        top = max(float(np.max(np.abs(rf))) if rf.size else 0.0, float(np.max(np.abs(ri))) if ri.size else 0.0)
+        bad = np.abs(ri - rf) > 1e-3 * np.maximum(np.abs(ri), np.abs(rf)) + 1e-9 * top
+        if np.any(bad):
+            viol.append({"what": who + "%s(x,t) gives different values for one point: x as %s against the same numbers as Python floats "
+                                 "(fixed-width integer wrap-around inside the evaluator)" % (name, xform),
+                         "signature": "integer-dtype-state:%s" % name, "evaluator": name,
+                         "detail": "as %s: %s ; as floats: %s at %s" % (xform, ri.tolist(), rf.tolist(), {k: str(v) for k, v in env.items()})})
+    return viol, tags
